@@ -25,7 +25,7 @@ import (
 func TestMain(m *testing.M) { hx.Main(m) }
 
 type spec struct {
-	Kind  string `json:"kind"` // listener | dialer | socket | qlen0 | reject | pairbusy | wrongproto
+	Kind  string `json:"kind"` // listener | dialer | socket | qlen0 | reject | pairbusy | wrongproto | sibling
 	Tran  string `json:"tran,omitempty"`
 	Err   string `json:"err,omitempty"`
 	Proto string `json:"proto,omitempty"`
@@ -93,6 +93,22 @@ func TestC12(t *testing.T) {
 			}
 		}
 	}
+	// a second listener for an address that a live listener owns fails and is disposed of; the live
+	// one must go on accepting (appended last, for the same reason)
+	var cooked []string
+	for _, p := range hx.AllProtos {
+		if p[0] != 'x' {
+			cooked = append(cooked, p)
+		}
+	}
+	for rep := 0; rep < reps; rep++ {
+		for _, tr := range trans {
+			for _, m := range siblingModes {
+				p := cooked[rnd.Intn(len(cooked))]
+				cases = append(cases, mon.CaseSpec{Name: "sibling/" + tr + "/" + m + "/" + p, Spec: spec{Kind: "sibling", Tran: tr, Err: m, Proto: p}})
+			}
+		}
+	}
 	r.Run(cases, func(c *mon.Case) {
 		sp := c.Spec.(spec)
 		switch sp.Kind {
@@ -114,6 +130,8 @@ func TestC12(t *testing.T) {
 			} else {
 				runWrongProtoDial(c, sp)
 			}
+		case "sibling":
+			runSibling(c, sp)
 		}
 		c.Sig("%s|%s|%s|%s%s", sp.Kind, sp.Tran, sp.Err, sp.Proto, sp.Stranger)
 	})
@@ -1559,6 +1577,272 @@ func runWrongProtoDial(c *mon.Case, sp spec) {
 		return
 	}
 	if _, ok := call(c, ctx, "socket.Close", knockSlowly, cli.Close); !ok {
+		return
+	}
+	c.Nontrivial()
+}
+
+// ---------------------------------------------------------------------------
+// a listener that never bound its address, next to the live listener that owns the address
+
+// How the second listener fails / what becomes of it afterwards.  The failure is either the bind
+// (the address is in use: by a listener made with NewListener, whose handle the application keeps,
+// or inside ListenOptions, which keeps it to itself) or the construction (an option is rejected
+// and the library disposes of the half-made listener itself).  A listener that failed to bind is
+// closed through its handle, closed together with its socket (a socket other than the one the
+// live listener belongs to), or kept.
+var siblingModes = []string{
+	"listen-inuse/close", "listen-inuse/sockclose", "listen-inuse/kept",
+	"listenopts-inuse/sockclose", "listenopts-inuse/kept",
+	"newlistener-badopt", "listenopts-badopt",
+}
+
+// The longest library timer in these cases: the ipc transport probes an address it finds in use
+// with a connect that has a 100 ms timeout.
+var siblingWait = mon.AwaitOpts{MaxTimer: 100 * time.Millisecond, Ignore: []string{"internal/core.(*dialer)"}}
+
+type sibPeer struct {
+	s mangos.Socket
+	w *hx.PipeWatch
+}
+
+// runSibling: a socket listens at an address and has a peer.  Further listeners for the very same
+// address are attempted, on that socket or on another one, and fail; what is left of them is
+// disposed of.  None of that is the live listener's business: the peer it has, once its connection
+// is lost, redials and is taken back, and a new peer that dials is accepted and served.
+func runSibling(c *mon.Case, sp spec) {
+	tr, p := sp.Tran, sp.Proto
+	how, disposal := sp.Err, ""
+	if i := strings.Index(how, "/"); i >= 0 {
+		how, disposal = how[:i], how[i+1:]
+	}
+	ctx := "sibling/" + tr + "/" + sp.Err
+	gp := hx.PeerOf[p]
+	srv := hx.MustSock(c, p)
+	tune(srv, p)
+	ws := hx.WatchPipes(srv)
+	l1, err := srv.NewListener(hx.ListenAddr(tr), lopts(tr))
+	if err != nil {
+		c.Inconclusive("setup "+ctx+": NewListener: %v", err)
+		return
+	}
+	if e, ok := call(c, ctx, "live-listener.Listen", 0, l1.Listen); !ok || e != nil {
+		if ok {
+			c.Inconclusive("setup "+ctx+": Listen: %v", e)
+		}
+		return
+	}
+	addr := l1.Address()
+	probe := []interface{}{srv, l1}
+	script := ""
+
+	// connect: a matched peer dials the live listener and must attach on both sides.  Before any
+	// listener has failed this is set-up; afterwards it is the listener still accepting.
+	connect := func(phase string, asynch bool) *sibPeer {
+		cli := hx.MustSock(c, gp)
+		tune(cli, gp)
+		cli.SetOption(mangos.OptionReconnectTime, knockEvery)
+		cli.SetOption(mangos.OptionMaxReconnectTime, knockEvery)
+		if asynch {
+			cli.SetOption(mangos.OptionDialAsynch, true)
+		}
+		pr := &sibPeer{s: cli, w: hx.WatchPipes(cli)}
+		d, e := cli.NewDialer(addr, dopts(tr))
+		if e != nil {
+			c.Inconclusive("setup "+ctx+": NewDialer: %v", e)
+			return nil
+		}
+		a0 := ws.Attached()
+		k := mon.Go(phase+".Dial", func() (interface{}, error) { return nil, d.Dial() })
+		if !c.AwaitOrViolate("not-accepting:"+ctx+"/"+phase+"-dial-stuck",
+			fmt.Sprintf("%s: the Dial (asynch=%v) of a matched %s peer to the live %s listener returning [%s]", ctx, asynch, gp, p, script), k.Done, siblingWait) {
+			return nil
+		}
+		c.Count("followup_calls", 1)
+		if _, e, _ := k.Result(); e != nil {
+			if script == "" {
+				c.Inconclusive("setup "+ctx+": the first peer cannot connect: %v", e)
+			} else {
+				c.Violate("not-accepting:"+ctx+"/"+phase+"-dial-failed", "%s: a matched %s peer dialing (asynch=%v) the live %s listener at %s got %v, after [%s]", ctx, gp, asynch, p, addr, e, script)
+			}
+			return nil
+		}
+		if !c.AwaitOrViolate("not-accepting:"+ctx+"/"+phase+"-never-attached",
+			fmt.Sprintf("%s: the matched %s peer (asynch=%v) attaching on both sides at the live %s listener [%s]", ctx, gp, asynch, p, script),
+			func() bool { return ws.Attached() >= a0+1 && pr.w.Attached() >= 1 }, siblingWait) {
+			return nil
+		}
+		probe = append(probe, cli, d)
+		return pr
+	}
+	cur := connect("first-peer", false)
+	if cur == nil {
+		return
+	}
+	if !converse(c, ctx, p, srv, cur.s) {
+		return
+	}
+
+	// one more listener for the address fails and is disposed of
+	fail := func() bool {
+		other := disposal == "sockclose" || (disposal != "sockclose" && c.Rand.Intn(2) == 0)
+		own, owner := srv, "same-socket"
+		if other {
+			own, owner = hx.MustSock(c, p), "other-socket"
+			tune(own, p)
+		}
+		opts := lopts(tr)
+		bad := ""
+		if strings.HasSuffix(how, "-badopt") {
+			o := map[string]interface{}{}
+			for k, v := range opts {
+				o[k] = v
+			}
+			n := 2
+			if hx.NeedsTLS(tr) {
+				n = 3
+			}
+			switch c.Rand.Intn(n) {
+			case 0:
+				o["no-such-option"], bad = 1, "unknown-option"
+			case 1:
+				o[mangos.OptionMaxRecvSize], bad = "not-a-number", "MaxRecvSize-of-wrong-type"
+			case 2:
+				o[mangos.OptionTLSConfig], bad = 42, "TLSConfig-of-wrong-type"
+			}
+			opts = o
+		}
+		var l2 mangos.Listener
+		var e error
+		var ok bool
+		switch how {
+		case "listen-inuse":
+			if l2, e = own.NewListener(addr, opts); e != nil {
+				c.Inconclusive("setup "+ctx+": NewListener for the second listener: %v", e)
+				return false
+			}
+			e, ok = call(c, ctx, "second-listener.Listen", siblingWait.MaxTimer, l2.Listen)
+		case "listenopts-inuse", "listenopts-badopt":
+			e, ok = call(c, ctx, "second.ListenOptions", siblingWait.MaxTimer, func() error { return own.ListenOptions(addr, opts) })
+		case "newlistener-badopt":
+			e, ok = call(c, ctx, "second.NewListener", siblingWait.MaxTimer, func() error { var e error; l2, e = own.NewListener(addr, opts); return e })
+		}
+		if !ok {
+			return false
+		}
+		if e == nil {
+			c.Inconclusive("%s: a second listener (%s, %s %s) for %s, which a live listener owns, did not fail: the situation did not arise", ctx, owner, how, bad, addr)
+			return false
+		}
+		c.Count("errors_provoked", 1)
+		c.Count("sibling_listeners_failed", 1)
+		script += fmt.Sprintf("%s:%s(%s)->%v", owner, how, bad, e)
+		if strings.HasSuffix(how, "-badopt") {
+			l2 = nil
+		}
+		pl := append([]interface{}{}, probe...)
+		if other {
+			pl = append(pl, own)
+		}
+		if l2 != nil {
+			pl = append(pl, l2)
+		}
+		c.Count("locks_probed", hx.ProbeLocks(c, "lock-held:"+ctx+":", ctx+" right after the second listener failed ["+script+"]", pl...))
+		if l2 != nil && !endpointFollowups(c, ctx, "failed-listener", l2.GetOption, l2.SetOption, l2.Address) {
+			return false
+		}
+		// what becomes of it
+		did := disposal
+		if did == "" { // the library has disposed of the rejected listener itself
+			did = "rejected"
+			if other && c.Rand.Intn(2) == 0 {
+				did = "rejected,sockclose"
+			}
+		}
+		script += "," + did + " "
+		if strings.HasSuffix(did, "sockclose") {
+			if _, ok := call(c, ctx, "second-socket.Close", siblingWait.MaxTimer, own.Close); !ok {
+				return false
+			}
+		}
+		if did == "close" {
+			if _, ok := call(c, ctx, "failed-listener.Close", siblingWait.MaxTimer, l2.Close); !ok {
+				return false
+			}
+		}
+		if did != "kept" {
+			c.Count("sibling_listeners_disposed", 1)
+		}
+		if l2 != nil {
+			// whatever has become of it, Listen on it returns
+			if _, ok := call(c, ctx, "failed-listener.Listen-again", siblingWait.MaxTimer, l2.Listen); !ok {
+				return false
+			}
+			if did == "kept" {
+				probe = append(probe, l2)
+			}
+		}
+		if other && did == "kept" {
+			probe = append(probe, own)
+		}
+		return true
+	}
+
+	// redial: the live listener's socket loses its peer's connection; the peer's dialer comes back
+	redial := func() bool {
+		pipes := ws.Pipes()
+		a0, c0 := ws.Attached(), cur.w.Attached()
+		if _, ok := call(c, ctx, "live-pipe.Close", siblingWait.MaxTimer, pipes[len(pipes)-1].Close); !ok {
+			return false
+		}
+		if !c.AwaitOrViolate("not-connecting:"+ctx+"/lost-peer-redial",
+			fmt.Sprintf("%s: the %s peer, whose connection the %s socket closed, redialling the live listener at %s and attaching again [%s]", ctx, gp, p, addr, script),
+			func() bool { return ws.Attached() >= a0+1 && cur.w.Attached() >= c0+1 }, siblingWait) {
+			return false
+		}
+		c.Count("lost_peers_redialled", 1)
+		return converse(c, ctx, p, srv, cur.s)
+	}
+	// replace: the peer leaves, a new one dials
+	replace := func() bool {
+		if _, ok := call(c, ctx, "peer.Close", siblingWait.MaxTimer, cur.s.Close); !ok {
+			return false
+		}
+		if r := mon.Await(func() bool { return ws.Live() == 0 }, siblingWait); r.V != mon.Done {
+			c.Inconclusive("%s: the %s socket has not noticed that its peer left (%v after %v)", ctx, p, r.V, r.Waited)
+			return false
+		}
+		if cur = connect("new-peer", c.Rand.Intn(2) == 0); cur == nil {
+			return false
+		}
+		c.Count("new_peers_admitted", 1)
+		return converse(c, ctx, p, srv, cur.s)
+	}
+
+	rounds := 1 + c.Rand.Intn(2)
+	for i := 0; i < rounds; i++ {
+		if !fail() {
+			return
+		}
+		steps := []func() bool{redial, replace}
+		if c.Rand.Intn(2) == 0 {
+			steps[0], steps[1] = steps[1], steps[0]
+		}
+		for _, st := range steps {
+			if !st() {
+				return
+			}
+		}
+	}
+	c.Logf("script: %s", script)
+	c.Count("locks_probed", hx.ProbeLocks(c, "lock-held:"+ctx+":", ctx+" ["+script+"]", probe...))
+	if !endpointFollowups(c, ctx, "live-listener", l1.GetOption, l1.SetOption, l1.Address) {
+		return
+	}
+	if _, ok := call(c, ctx, "live-listener.Close", siblingWait.MaxTimer, func() error { l1.Close(); return nil }); !ok {
+		return
+	}
+	if _, ok := call(c, ctx, "socket.Close", siblingWait.MaxTimer, srv.Close); !ok {
 		return
 	}
 	c.Nontrivial()
